@@ -323,7 +323,7 @@ func workload2(res *core.Result, r *rand.Rand, link bool, k int, permute bool, t
 		prio := !link && r.IntN(4) == 0
 		s, err := ch.seal(i, prio)
 		if err != nil {
-			res.Violate("seal-across-wrap-failed", fmt.Sprintf("%s: sealing frame %d (prio=%v) %d frames from the wrap failed: %v", layer, i, prio, k-i), wit)
+			res.Violate("seal-across-wrap-failed", fmt.Sprintf("%s: sealing frame %d (prio=%v) %d frames from the wrap failed: %v", layer, i, prio, k-i, err), wit)
 			return
 		}
 		frames = append(frames, s)
@@ -466,14 +466,20 @@ func workload3(res *core.Result, r *rand.Rand, k int, keyPrefix string) {
 	// B -> A priority and regular traffic before the wrap.
 	var bPrio []sealed
 	nb := 3 + r.IntN(6)
+	bClass := func(i int) frame.MessageType {
+		if i%2 == 1 {
+			return frame.SessionData // B's regular class: its counter and key are B's own, too
+		}
+		return frame.RouterCtrl
+	}
 	for i := 0; i < nb; i++ {
-		s, err := mk(p.B, p.A, p.BA, encB, frame.RouterCtrl, "b-prio")
+		s, err := mk(p.B, p.A, p.BA, encB, bClass(i), "b-before")
 		if err != nil {
 			res.Violate("seal-failed", fmt.Sprintf("duplex: %v", err), wit)
 			return
 		}
 		if err := open(p.A, p.AB, s); err != nil {
-			res.Violate("duplex-frame-rejected", fmt.Sprintf("duplex: B->A priority frame rejected before any wrap: %v", err), wit)
+			res.Violate("duplex-frame-rejected", fmt.Sprintf("duplex: B->A frame rejected before any wrap: %v", err), wit)
 			return
 		}
 		bPrio = append(bPrio, s)
@@ -501,33 +507,35 @@ func workload3(res *core.Result, r *rand.Rand, k int, keyPrefix string) {
 	for i, s := range bPrio {
 		if err := open(p.A, p.AB, s); err == nil {
 			res.Violate("replay-accepted-in-unchanged-direction",
-				fmt.Sprintf("duplex: B->A priority frame %d (seq %d), accepted before, unsealed again at A after A's own outgoing regular sequence wrapped (B->A key unchanged)", i, s.seq), wit)
+				fmt.Sprintf("duplex: B->A frame %d (seq %d), accepted before, unsealed again at A after A's own outgoing regular sequence wrapped (B->A key unchanged)", i, s.seq), wit)
 			return
 		}
 	}
 	// (ii) B's outgoing priority numbers under its unchanged out key must not repeat.
 	type kk struct {
-		key string
-		seq uint32
+		key  string
+		prio bool
+		seq  uint32
 	}
 	seen := map[kk]bool{}
 	for _, s := range bPrio {
-		seen[kk{string(s.key), s.seq}] = true
+		seen[kk{string(s.key), s.prio, s.seq}] = true
 	}
 	for i := 0; i < nb+2; i++ {
-		s, err := mk(p.B, p.A, p.BA, encB, frame.RouterCtrl, "b-prio-after")
+		s, err := mk(p.B, p.A, p.BA, encB, bClass(i), "b-after")
 		if err != nil {
 			res.Violate("seal-failed", fmt.Sprintf("duplex: %v", err), wit)
 			return
 		}
-		if seen[kk{string(s.key), s.seq}] {
+		cls := map[bool]string{true: "priority", false: "regular"}[s.prio]
+		if seen[kk{string(s.key), s.prio, s.seq}] {
 			res.Violate("sequence-number-repeated:unchanged-direction",
-				fmt.Sprintf("duplex: B's outgoing priority sequence %d repeats under B's unchanged out key after the incoming (A->B) regular sequence wrapped", s.seq), wit)
+				fmt.Sprintf("duplex: B's outgoing %s sequence %d repeats under B's unchanged out key after the incoming (A->B) regular sequence wrapped", cls, s.seq), wit)
 			return
 		}
-		seen[kk{string(s.key), s.seq}] = true
+		seen[kk{string(s.key), s.prio, s.seq}] = true
 		if err := open(p.A, p.AB, s); err != nil {
-			res.Violate("duplex-frame-rejected", fmt.Sprintf("duplex: fresh B->A priority frame (seq %d) rejected after the A->B wrap: %v", s.seq, err), wit)
+			res.Violate("duplex-frame-rejected", fmt.Sprintf("duplex: fresh B->A %s frame (seq %d) rejected after the A->B wrap: %v", cls, s.seq, err), wit)
 			return
 		}
 	}
